@@ -13,6 +13,10 @@ CLAIMED = {
          "All single-operand facts (unary minus, classification, text round trip, round(n) for 19 values of n, limits) are decided exhaustively in both tiers; binary compound arithmetic is exhaustive over a 4096-pattern boundary set (1.7e7 pairs x 4 ops), 2e7 random pairs and every half x ~1200 boundary floats in quick, and over all 2^32 pairs in thorough; halfFunction is checked entry-by-entry for generated domain tuples.",
          "Trusts the reference codec of C01, host float arithmetic (one IEEE operation in binary32) and libc strtod/printf for the decimal-digit claims. NaN results are compared by NaN-ness only.",
          "DESIGN.md section 5 C03"),
+ "C08": ("seeded class-structured random generation (exponent sweep from the smallest subnormal to sqrt(max)/2, 8 pattern classes) with shrinking; oracle = norm and quotients evaluated in __float128, error measured in ulps",
+         "Samples the continuous domain densely where the algorithm switches (2*min threshold +-8 ulps, underflowing squares, subnormal norms, graded magnitudes) for Vec2/3/4 x float/double and all six normalisation spellings; a pass means no counter-example among 1.5e7 (quick) / 2.4e8 (thorough) generated vectors, it is not a proof.",
+         "Bounds: length within 6 ulps, components within 8 ulps, |n| within 4 eps (measured worst on the unchanged tree 2.7 / 3.5 ulps). Errors smaller than the bounds are invisible. Trusts libquadmath sqrtq.",
+         "DESIGN.md section 5 C08"),
 }
 PENDING_REASON = "check under construction in this session (harness not yet committed); will be claimed once it passes on the unchanged tree"
 def main():
